@@ -25,6 +25,7 @@ RULE = ("one run = 1-3 simulated terminals, each with a tape-generated well-form
         "objects 0x1C12/0x1C13, and the EBPFTerminal.apply_eeprom flow); results compared "
         "with the generating description; distinct = distinct images x modes x busy "
         "patterns (event-log digest); non-trivial = at least 3 categories or 3 PDO entries")
+RULE += '; since the 4th session identity fields also sit at their 32-bit boundaries and the EEPROM interface may still be busy with an abandoned command when the read starts'
 COMPONENTS = {
     "real": ["ebpfcat.ethercat.Terminal.initialize/apply_eeprom/read_eeprom/"
              "_eeprom_read_one/parse_sync_managers/parse_pdos", "EtherCat.eeprom_read",
